@@ -79,6 +79,9 @@ def systematic():
         for bbody in ['"a" ~ "b"', '"a" | "b"', '^"a"', '"a"+', "'a'..'b'", '"a" ~ "b" | "b"', '"ab"']:
             out.append(grammar_text('(!b ~ ANY)* ~ b?', "@", bbody, bmod, '_{ " " }'))
             out.append(grammar_text('(!(b | "c") ~ ANY)*', "@", bbody, bmod, '_{ " " }'))
+    # case-insensitive literals with characters that are not letters (only ASCII letters fold)
+    for s_ in ['^"a-b"', '^"_" ~ ^"[x]"', '^"1@" | ^"Z"', '^"é" ~ ANY?']:
+        out.append(grammar_text(s_)); out.append(grammar_text(s_, "@", '^"B"', ""))
     lists = ['("a" ~ "b")* ~ "a"', '("a" ~ b)* ~ "a"', '(b ~ "a")* ~ b', '"a" ~ ("b" ~ "a")*', '(!"b" ~ ANY)*', '(!("a" | "b") ~ ANY)* ~ "a"',
              '(!("ab" | "b" | "") ~ ANY)*', '"a" ~ "b" | "a" ~ "c"', '"a" ~ "b" ~ "c" | "a" ~ "b" ~ "d" | "a"', '"a" ~ ("b" | "c" ~ "d")', '^"a" ~ ^"b"', '"a" ~ "" ~ "b"']
     for s in lists:
